@@ -212,7 +212,7 @@ func treeOf(v any) *Tree {
 
 // GV describes a Go value handed to the library.
 type GV struct {
-	K    byte // n b i d s : scalars (canonical types) ; w : other int width ; g : float32 ; X : unsupported
+	K byte // n b i d s : scalars (canonical types) ; w : other int width ; g : float32 ; X : unsupported
 	//            R : existing container (reference) ; ( : slice ; < : map
 	B    bool
 	I    int
@@ -423,11 +423,11 @@ func (g *GV) Go() any {
 	panic("bad GV")
 }
 
-func gvNil() *GV             { return &GV{K: 'n'} }
-func gvBool(b bool) *GV      { return &GV{K: 'b', B: b} }
-func gvInt(i int) *GV        { return &GV{K: 'i', I: i} }
-func gvFloat(f float64) *GV  { return &GV{K: 'd', F: f} }
-func gvStr(s string) *GV     { return &GV{K: 's', S: s} }
+func gvNil() *GV              { return &GV{K: 'n'} }
+func gvBool(b bool) *GV       { return &GV{K: 'b', B: b} }
+func gvInt(i int) *GV         { return &GV{K: 'i', I: i} }
+func gvFloat(f float64) *GV   { return &GV{K: 'd', F: f} }
+func gvStr(s string) *GV      { return &GV{K: 's', S: s} }
 func gvUnsupported(k int) *GV { return &GV{K: 'X', Unsp: k} }
 
 // gvOfTree turns a pure tree into the []any / map[string]any Go value.
